@@ -9,6 +9,7 @@ import (
 
 	pb "github.com/xuperchain/xupercore/bcs/ledger/xledger/xldgpb"
 
+	"verif/gen"
 	"verif/memkv"
 	sn "verif/simnode"
 )
@@ -26,13 +27,17 @@ func (s *SUT) snap() snap {
 func (s *SUT) compareSnap(before snap, what string) []Problem {
 	defer before.world.Drop()
 	var ps []Problem
+	word := "a failed"
+	if what == "walk:no-block-moved" {
+		word = "a successful walk that moved no block,"
+	}
 	if eq, why := before.world.Equal(s.N.World); !eq {
-		ps = append(ps, Problem{Sig: "failed-op-trace|" + what + "|persisted", Detail: "a failed operation changed stored data: " + why})
+		ps = append(ps, Problem{Sig: "failed-op-trace|" + what + "|persisted", Detail: word + " operation changed stored data: " + why})
 	}
 	after := FullObs(s.N, s)
 	if d := before.obs.Diff(after); len(d) > 0 {
 		ps = append(ps, Problem{Sig: "failed-op-trace|" + what + "|" + diffClass(d),
-			Detail: fmt.Sprintf("answers changed by a failed %s: %s", what, strings.Join(head(d, 8), " ;; "))})
+			Detail: fmt.Sprintf("answers changed by %s %s: %s", word, what, strings.Join(head(d, 8), " ;; "))})
 	}
 	s.Stats["failed."+what]++
 	return ps
@@ -144,6 +149,45 @@ func (s *SUT) FailPlay(rng *rand.Rand) (Op, []Problem) {
 // FailWalk: walk to a junk block: the walk must fail; the state must be at a stored block
 // in its canonical state (checked by the other auditors).
 func (s *SUT) FailWalk(rng *rand.Rand) (Op, []Problem) {
+	// walks that touch no block at all: to a block the ledger does not hold (fails after the pool
+	// was rolled back) and to the block the state already names (succeeds). Neither may change a
+	// single answer or stored byte - the pending transactions included.
+	if r := rng.Intn(4); (r == 0 || len(s.junk) == 0) && s.Tip() >= 0 {
+		if rng.Intn(2) == 0 {
+			// pending writers of ONE key, each citing the version its predecessor wrote: the pool
+			// roll-back of the walk leaves and re-enters them in order
+			b := gen.Buckets[rng.Intn(len(gen.Buckets))]
+			k := []byte(gen.KeyNames[rng.Intn(len(gen.KeyNames))])
+			for i, n := 0, 2+rng.Intn(2); i < n; i++ {
+				if x := s.kvTx(rng, (&sn.ProgBuilder{}).Get(b, k).Put(b, k, []byte(fmt.Sprintf("w%d-%d", s.hn, i)))); x != nil {
+					if s.SubmitTx(x) == "ok" {
+						s.Stats["walk.no-block.chained-writers-pending"]++
+					}
+				}
+			}
+		}
+		before := s.snap()
+		if rng.Intn(2) == 0 {
+			id := make([]byte, 32)
+			rng.Read(id)
+			err := s.N.Walk(id, false)
+			op := s.log(Op{Kind: "failwalk", Arg: "unknown-target", Result: fmt.Sprint(err)})
+			if err == nil {
+				before.world.Drop()
+				return op, []Problem{{Sig: "unknown-block-walked", Detail: "walk to a block the ledger does not hold succeeded"}}
+			}
+			s.Stats["failed.walk.unknown-target"]++
+			return op, s.compareSnap(before, "walk:unknown-target")
+		}
+		err := s.N.Walk(s.N.StateTip(), false)
+		op := s.log(Op{Kind: "noopwalk", Result: fmt.Sprint(err)})
+		if err != nil {
+			before.world.Drop()
+			return op, []Problem{{Sig: "walk-to-own-block-failed", Detail: "walk to the block the state already names failed: " + err.Error()}}
+		}
+		s.Stats["walk.noop"]++
+		return op, s.compareSnap(before, "walk:no-block-moved")
+	}
 	if len(s.junk) == 0 {
 		return Op{}, nil
 	}
